@@ -32,6 +32,8 @@ pub mod nom {
         pub fn to_string(&self) -> String { unimplemented!() }
     }
     pub type IResult<I, O> = Result<(I, O), Err<error::Error<I>>>;
+    pub mod multi { pub use crate::nom_c::count; }
+    pub mod combinator { pub use crate::nom_c::map; }
 }
 pub use nom::IResult;
 pub use nom::Err as NomErr;
@@ -49,6 +51,24 @@ pub open spec fn is_suffix(part: Seq<u8>, whole: Seq<u8>) -> bool {
     part.len() <= whole.len() && part == whole.subrange(whole.len() - part.len(), whole.len() as int)
 }
 
+pub broadcast proof fn lemma_sub_sub(s: Seq<u8>, a: int, b: int)
+    requires 0 <= a <= s.len(), 0 <= b <= s.len() - a,
+    ensures #[trigger] s.subrange(a, s.len() as int).subrange(b, s.len() - a) == s.subrange(a + b, s.len() as int),
+{
+    assert(s.subrange(a, s.len() as int).subrange(b, s.len() - a) =~= s.subrange(a + b, s.len() as int));
+}
+
+/// offset tracking step used by the `track:` hints (see tools/extract.py)
+pub proof fn lemma_track(orig: Seq<u8>, off: int, p: Seq<u8>, n: Seq<u8>)
+    requires
+        0 <= off <= orig.len(), p == orig.subrange(off, orig.len() as int),
+        n.len() <= p.len(), n == p.subrange(p.len() - n.len(), p.len() as int) || n == p,
+    ensures
+        n == orig.subrange(off + (p.len() - n.len()), orig.len() as int),
+{
+    assert(n =~= orig.subrange(off + (p.len() - n.len()), orig.len() as int));
+}
+
 // ---- std specs missing from vstd ----------------------------------------------
 pub assume_specification<T: Clone> [<[T]>::to_vec] (s: &[T]) -> (r: Vec<T>)
     ensures r@.len() == s@.len(), forall|i: int| 0 <= i < s@.len() ==> cloned(s@[i], #[trigger] r@[i]);
@@ -64,3 +84,4 @@ pub proof fn lemma_to_vec_u8(s: Seq<u8>, r: Seq<u8>)
 }
 
 } // verus!
+//@ include nom_prims.rs
